@@ -26,7 +26,7 @@ Fixpoint all_chars (p : ascii -> bool) (s : string) : bool :=
 Definition nonempty (s : string) : bool := match s with EmptyString => false | _ => true end.
 
 (* f"{num}" for a non-negative int *)
-Definition dec (n : N) : string := NilZero.string_of_uint (N.to_uint n).
+Definition dec (n : N) : string := NilEmpty.string_of_uint (N.to_uint n).   (* N.to_uint is never Nil: "0" for 0 *)
 (* int("007") *)
 Fixpoint parse_dec_acc (acc : N) (s : string) : N :=
   match s with
